@@ -281,7 +281,12 @@ func (v ReceiverValidator) validateReturnTypes(receiver *metadata.ReceiverMeta) 
 
 	// Validate whether the method returns a proper error. This may be the first or second return type in the list
 	retType := receiver.RetVals[errorRetTypeIndex]
-	relevantPkg, err := v.packagesFacade.GetPackage(retType.PkgPath)
+	// The error type may be declared in another package than the controller's
+	retTypePkgPath := retType.PkgPath
+	if retType.Type.PkgPath != "" {
+		retTypePkgPath = retType.Type.PkgPath
+	}
+	relevantPkg, err := v.packagesFacade.GetPackage(retTypePkgPath)
 	if err != nil {
 		return nil, fmt.Errorf(
 			"failed to obtain package object for return value '%s' in receiver '%s' - %w",
